@@ -1,11 +1,12 @@
 package s0319
 
 type G1 struct {
-	F2x0 *uint32
+	F3x0 uint64
 }
 
 type T struct {
-	F0 *int32
-	F1 *int64
-	F2 G1
+	F0 []int32
+	F1 int64
+	F2 uint32
+	F3 *G1
 }
